@@ -120,7 +120,64 @@ def judge(run, scn, meta, res, section='state'):
     run.nontriv((meta['state'], meta['cmd'], meta['v'] == '/', bool(meta['names']), meta['alt']))
 
 
+def midrun(run, n):
+    """$topdir/.Trash stops being secure WHILE one trash-put with several arguments on that volume is running (its sticky bit is
+    removed, or it is replaced by a symbolic link, right after the first argument was moved): every later argument must be judged
+    against the state at ITS turn - the rules are evaluated per candidate, per argument (never remembered)"""
+    rng = run.rng
+    base, metas = [], []
+    for i in range(n):
+        uid = rng.choice([0, 1000])
+        vol = '/vol1'
+        nargs = rng.choice([2, 2, 3])
+        nodes = scen.canary() + [['d', '/home/u', 0o755], ['d', vol, 0o755], ['d', vol + '/.Trash', 0o1777], ['d', vol + '/data', 0o755]]
+        if rng.random() < 0.5:
+            nodes += scen.entry(vol + '/.Trash/%d' % uid, 'old', 'sh/old', '2001-01-01T00:00:00', 'f')
+        args = []
+        for k in range(nargs):
+            nodes.append(['f', vol + '/data/v%d' % k, 'victim %d' % k])
+            args.append(vol + '/data/v%d' % k)
+        change = rng.choice(['chmod', 'to_link'])
+        scn = {'tree': nodes, 'mounts': [vol], 'cwd': '/', 'uid': uid, 'env': {'HOME': '/home/u', 'TRASH_VOLUMES': '/:' + vol},
+               'steps': [{'cmd': 'put', 'argv': ['--'] + args, 'now': [2024, 5, 6, 7, 8, 9, 0]}]}
+        base.append(scn)
+        metas.append({'vol': vol, 'uid': uid, 'args': args, 'change': change})
+    res0 = sandbox.execute_many(base)
+    scns, ms = [], []
+    for scn, meta, r0 in zip(base, metas, res0):
+        if not r0.get('steps'):
+            continue
+        muts = r0['steps'][0].get('muts') or []
+        ren = [k + 1 for k, m in enumerate(muts) if m == 'rename']
+        if not ren:
+            continue
+        s = copy.deepcopy(scn)
+        ops = [['chmod', meta['vol'] + '/.Trash', 0o755]] if meta['change'] == 'chmod' else [['to_link', meta['vol'] + '/.Trash', meta['vol'] + '/moved-trash']]
+        s['steps'][0]['plan'] = {'midfs': {'after': ren[0], 'ops': ops}}
+        scns.append(s)
+        ms.append(meta)
+    out = engine.run_all(run, 'mid-run', scns)
+    by_id = {id(s): m for s, m in zip(scns, ms)}
+    for scn, res in out:
+        meta = by_id[id(scn)]
+        run.count('mid-run-state')
+        before, o = res['before'], res['steps'][0]
+        after = o['after']
+        case = {'scenario': scn, 'meta': meta, 'exit': o['exit'], 'stderr': esc(o['stderr'][-500:])}
+        top1 = '%s/.Trash/%d' % (meta['vol'], meta['uid'])
+        moved = '%s/moved-trash/%d' % (meta['vol'], meta['uid'])
+        pairs, strays, orphans = putlib.new_trash_items(before, after)
+        later = tuple(os.path.basename(a) for a in meta['args'][1:])
+        inside = [(td, n) for td, n in pairs if td in (top1, moved) and n.startswith(later)]
+        # only the first argument (and what was there before) may be there
+        if inside:
+            run.fail('oracle', 'trash-put kept writing into $topdir/.Trash/$uid after $topdir/.Trash had stopped being a sticky real directory '
+                     '(%s in the middle of the run)' % meta['change'], dict(case, entries_inside=inside), key='insecure-written-midrun', section='mid-run-state')
+        run.nontriv(('midrun', meta['change'], len(meta['args']), len(inside), o['exit']))
+
+
 def run(run, thorough):
+    midrun(run, 24 if not thorough else 200)
     scns, metas = gen(run.rng, 700 if not thorough else 10000)
     out = engine.run_all(run, 'five-commands', scns)
     by_id = {id(s): m for s, m in zip(scns, metas)}
